@@ -11,67 +11,110 @@
    End    ok ret guard out        what the caller got: return value, modified guard bytes around the caller's
                                   memory, the delivered bytes (MEM: the first min(ret, n) bytes of the caller's memory)
    Case                           a new (page, module, options) combination of a real export module follows
-   Export t ok len h              vbi_export_alloc / _stdio / _file on that combination: success, length and
-                                  identity (hash) of the delivered data
+   Export t ok len h run          vbi_export_alloc / _stdio / _file on that combination: success, length and
+                                  identity (hash) of the delivered data (run = 2: the same export in a second
+                                  process whose fresh heap memory has other contents)
    ExportMem from to ret guard h  vbi_export_mem with every caller size from..to gave the same observation
                                   (h = identity of the first ret bytes when ret <= size, "-" otherwise)
 
    A line is accepted iff it is a step of ExportIO (capacities and the printf path are resolved from the log)
    and all ExportIO invariants hold in the reached state; Export lines are accepted iff every target delivers
-   the same data and MEM behaves as ExportIO!Observable says. *)
+   the same data and MEM behaves as ExportIO!Observable says.
+
+   Every line is judged; the verdict of a rejected line is printed as <<"TV-BAD", line, what, class>> and counted
+   (the rest of a rejected script is skipped), AllAccepted fails at the end of the log when any line was rejected. *)
 EXTENDS ExportIO, Json, IOUtils
 
 Log == ndJsonDeserialize(IOEnv.TRACEFILE)
-VARIABLES l, ref
-tvars == <<vars, l, ref>>
+VARIABLES l, ref, nbad, skip
+tvars == <<vars, l, ref, nbad, skip>>
 Ev == Log[l]
 NoRef == [len |-> 0 - 1, h |-> "none"]
-
-Matches(x, ev) == /\ x.target = ev.target /\ x.off = ev.off /\ x.cap = ev.cap
-                  /\ (x.own = "caller") = (ev.own = 1)
 
 StepOf(x, ev) ==
   IF ev.op = "w" \/ ev.op = "s" THEN {WriteR(x, ev.n, ev.cap)}
   ELSE IF ev.op = "c" THEN {PutcR(x, ev.cap)}
   ELSE IF ev.op = "p" THEN {PrintfR(x, ev.n, k, ev.cap, d) : k \in {ev.n, ev.n + 1},
                                                            d \in (IF IsFileTarget(x.target) THEN BOOLEAN ELSE {FALSE})}
-  ELSE IF ev.op = "g" THEN {GrowR(x, ev.n, ev.cap)}
+  ELSE IF ev.op = "g" THEN {y \in {GrowR(x, ev.n, ev.cap)} : GrowOK(x, ev.n, ev.cap)}
   ELSE IF ev.op = "f" THEN {FlushR(x)}
   ELSE {}
 
-TBegin == /\ Ev.a = "Begin" /\ s.entry = "none"
-          /\ s' = Begin(Ev.t, Ev.n) /\ res' = NoRes /\ UNCHANGED ref
-TOp == /\ Ev.a = "Op" /\ s.entry # "none" /\ Ev.ok = 1 /\ Ev.werr = 0
-       /\ \E x \in StepOf(s, Ev) : Matches(x, Ev) /\ s' = x
-       /\ UNCHANGED <<res, ref>>
-TEnd == /\ Ev.a = "End" /\ s.entry # "none"
-        /\ LET r == EndR(s) IN
-           /\ Ev.ok = 1 /\ Ev.ret = r.ret
-           /\ IF s.entry = "MEM"
-              THEN /\ Ev.guard = 0
-                   /\ Observable("MEM", s.csize, r.ret).defined => Ev.out = Prefix(r.out, r.ret)
-              ELSE Ev.out = r.out
-           /\ res' = [ret |-> r.ret, out |-> r.out, touched |-> r.touched, csize |-> s.csize, made |-> s.made, entry |-> s.entry]
-        /\ s' = Idle /\ UNCHANGED ref
+OpVerdict(x, ev) ==
+  LET c0 == StepOf(x, ev)
+      c1 == {y \in c0 : y.target = ev.target}
+      c2 == {y \in c1 : y.off = ev.off}
+      c3 == {y \in c2 : y.cap = ev.cap /\ y.off <= y.cap}
+      c4 == {y \in c3 : (y.own = "caller") = (ev.own = 1)}
+  IN IF ev.ok # 1 \/ ev.werr # 0 THEN <<"script-op", "output-function-failed">>
+     ELSE IF c0 = {} THEN <<"script-op", "buffer-not-grown">>
+     ELSE IF c1 = {} THEN <<"script-op", "wrong-target">>
+     ELSE IF c2 = {} THEN <<"script-op", "wrong-offset">>
+     ELSE IF c3 = {} THEN <<"script-op", "wrong-capacity">>
+     ELSE IF c4 = {} THEN <<"script-op", "wrong-buffer-owner">>
+     ELSE <<"ok", "">>
+Chosen(x, ev) == CHOOSE y \in StepOf(x, ev) : /\ y.target = ev.target /\ y.off = ev.off /\ y.cap = ev.cap
+                                              /\ (y.own = "caller") = (ev.own = 1)
 
-TCase == Ev.a = "Case" /\ s.entry = "none" /\ ref' = NoRef /\ UNCHANGED <<s, res>>
-TExport == /\ Ev.a = "Export" /\ s.entry = "none"
-           /\ Ev.ok = 1 /\ Ev.len >= 0
-           /\ ref = NoRef \/ (Ev.len = ref.len /\ Ev.h = ref.h)
-           /\ ref' = [len |-> Ev.len, h |-> Ev.h] /\ UNCHANGED <<s, res>>
-TExportMem == /\ Ev.a = "ExportMem" /\ s.entry = "none" /\ ref # NoRef
-              /\ Ev.guard = 0
-              /\ LET lo == Observable("MEM", Ev.from, ref.len)  hi == Observable("MEM", Ev.to, ref.len) IN
-                 /\ Ev.ret = lo.ret /\ lo.defined = hi.defined
-                 /\ lo.defined => Ev.h = ref.h
-              /\ UNCHANGED <<s, res, ref>>
+EndVerdict(x, ev) ==
+  LET r == EndR(x) IN
+  IF ev.ok # 1 THEN <<"script-end", "export-failed">>
+  ELSE IF x.entry = "MEM" /\ ev.guard # 0 THEN <<"script-end", "wrote-beyond-buffer-size">>
+  ELSE IF ev.ret # r.ret THEN <<"script-end", "wrong-size-returned">>
+  ELSE IF x.entry = "MEM" /\ Observable("MEM", x.csize, r.ret).defined /\ ev.out # Prefix(r.out, r.ret)
+       THEN <<"script-end", "data-lost-or-changed">>
+  ELSE IF x.entry # "MEM" /\ ev.out # r.out THEN <<"script-end", "data-lost-or-changed">>
+  ELSE <<"ok", "">>
 
-TInit == s = Idle /\ res = NoRes /\ nops = 0 /\ lastOp = [op |-> "begin"] /\ l = 1 /\ ref = NoRef
+ExportVerdict(ev) ==
+  IF ev.ok # 1 \/ ev.len < 0 THEN <<"targets", "export-failed">>
+  ELSE IF ref # NoRef /\ ev.len # ref.len THEN <<"targets", "length-depends-on-target">>
+  ELSE IF ref # NoRef /\ ev.h # ref.h THEN <<"targets", "data-depends-on-target">>
+  ELSE <<"ok", "">>
+MemVerdict(ev) ==
+  LET lo == Observable("MEM", ev.from, ref.len)  hi == Observable("MEM", ev.to, ref.len) IN
+  IF ev.guard # 0 THEN <<"mem", "wrote-beyond-buffer-size">>
+  ELSE IF ev.ret # lo.ret \/ ev.ret # hi.ret THEN <<"mem", "wrong-size-returned">>
+  ELSE IF lo.defined # hi.defined THEN <<"mem", "malformed">>
+  ELSE IF lo.defined /\ ev.h # ref.h THEN <<"mem", "data-differs-from-other-targets">>
+  ELSE <<"ok", "">>
+
+Judge(v) == /\ IF v[1] = "ok" THEN TRUE ELSE PrintT(<<"TV-BAD", l, v[1], v[2]>>)
+            /\ nbad' = nbad + (IF v[1] = "ok" THEN 0 ELSE 1)
+
+TBegin == /\ Ev.a = "Begin" /\ s' = Begin(Ev.t, Ev.n) /\ res' = NoRes /\ skip' = FALSE /\ UNCHANGED <<ref, nbad>>
+TOp == /\ Ev.a = "Op"
+       /\ IF skip \/ s.entry = "none" THEN UNCHANGED <<s, res, ref, nbad, skip>>
+          ELSE LET v == OpVerdict(s, Ev) IN
+               /\ Judge(v)
+               /\ IF v[1] = "ok" THEN s' = Chosen(s, Ev) /\ skip' = FALSE ELSE s' = Idle /\ skip' = TRUE
+               /\ UNCHANGED <<res, ref>>
+TEnd == /\ Ev.a = "End"
+        /\ IF skip \/ s.entry = "none" THEN UNCHANGED <<s, res, ref, nbad, skip>>
+           ELSE LET v == EndVerdict(s, Ev)  r == EndR(s) IN
+                /\ Judge(v)
+                /\ res' = IF v[1] = "ok"
+                          THEN [ret |-> r.ret, out |-> r.out, touched |-> r.touched, csize |-> s.csize, made |-> s.made, entry |-> s.entry]
+                          ELSE NoRes
+                /\ s' = Idle /\ UNCHANGED <<ref, skip>>
+
+TCase == Ev.a = "Case" /\ ref' = NoRef /\ s' = Idle /\ UNCHANGED <<res, nbad, skip>>
+TExport == /\ Ev.a = "Export"
+           /\ LET v == ExportVerdict(Ev) IN
+              /\ Judge(v)
+              /\ ref' = IF ref = NoRef /\ v[1] = "ok" THEN [len |-> Ev.len, h |-> Ev.h] ELSE ref
+           /\ UNCHANGED <<s, res, skip>>
+TExportMem == /\ Ev.a = "ExportMem"
+              /\ IF ref = NoRef THEN UNCHANGED nbad ELSE Judge(MemVerdict(Ev))
+              /\ UNCHANGED <<s, res, ref, skip>>
+
+TInit == s = Idle /\ res = NoRes /\ nops = 0 /\ lastOp = [op |-> "begin"] /\ l = 1 /\ ref = NoRef /\ nbad = 0 /\ skip = FALSE
 TNext == /\ l <= Len(Log) /\ l' = l + 1
          /\ (TBegin \/ TOp \/ TEnd \/ TCase \/ TExport \/ TExportMem)
          /\ UNCHANGED <<nops, lastOp>>
 TSpec == TInit /\ [][TNext]_tvars
 
+AllAccepted == l = Len(Log) + 1 => nbad = 0
 TraceAccepted == LET n == TLCGet("stats").diameter - 1 IN
                  IF n = Len(Log) THEN TRUE
                  ELSE PrintT(<<"TV-REJECT", n + 1, Len(Log)>>) /\ FALSE
